@@ -109,6 +109,7 @@ Record Inv (m i : nat) (s : @lst C V) : Prop := mk_Inv {
   I_sub0 : ent o (lsub s) 0 = 0;
   I_sub : 2 <= i -> ent o (lsub s) (i - 1) = nrm (col o (lV s) i);
   I_subn : forall a, 1 <= a < i -> exists w, ent o (lsub s) a = nrm w;
+  I_subnz : forall a, 1 <= a -> a + 1 < i -> ent o (lsub s) a <> 0;
   I_dreal : forall a, 1 <= a < i -> conj (ent o (ldiag s) (a - 1)) = ent o (ldiag s) (a - 1);
   I_rel1 : forall a, 1 <= a -> a + 1 < i -> forall u,
      dot u (A (col o (lV s) a)) = ent o (ldiag s) (a - 1) * dot u (col o (lV s) a)
@@ -122,7 +123,7 @@ Proof. intros H. destruct (In_nth _ _ o.(vzero) H) as (k & _ & E). exists k. unf
 
 Theorem step_inv m i s : 1 <= i <= m -> Inv m i s -> nrm (col o (lV s) i) <> 0 -> Inv m (S i) (lbody o A false i s).
 Proof.
-  intros Hi [lenV lend lens Iz Ion Ipo Is0 Isub Isubn Idr Ir1 Ir2] Hn.
+  intros Hi [lenV lend lens Iz Ion Ipo Is0 Isub Isubn Isnz Idr Ir1 Ir2] Hn.
   rewrite lbody_false.
   set (w := col o (lV s) i) in *. set (be := nrm w) in *.
   set (V1 := upd (lV s) i (o.(vdiv) w be)).
@@ -222,6 +223,9 @@ Proof.
   - intros _. replace (S i - 1)%nat with i by lia. replace (S i) with (i + 1)%nat by lia. rewrite Es, E6. reflexivity.
   - intros a Ha. destruct (Nat.eq_dec a i) as [->|Hai]; [rewrite Es; eexists; reflexivity|].
     rewrite Eso by lia. apply Isubn. lia.
+  - intros a Ha1 Ha2. rewrite Eso by lia. destruct (Nat.eq_dec (a + 1) i) as [Ea|Ea].
+    + assert (Ea' : a = (i - 1)%nat) by lia. subst a. fold sb. rewrite Hsb by lia. exact Hn.
+    + apply Isnz; lia.
   - intros a Ha. destruct (Nat.eq_dec a i) as [->|Hai]; [rewrite Edg; exact al_real|].
     rewrite Edo by lia. apply Idr. lia.
   - intros a Ha1 Ha2 u. rewrite (Eso (a - 1)%nat) by lia. rewrite (E6old a), (E6old (a - 1)%nat) by lia.
@@ -316,7 +320,8 @@ Theorem lanczos1_spec n max_iters : (1 <= n)%nat -> (1 <= max_iters)%nat ->
           + (if b =? 0 then 0 else ent o (roff r) (b - 1) * dot u (Qc r (b - 1)))
           + (if S b <? k then ent o (roff r) b * dot u (Qc r (S b)) else dot u w)) /\
     (forall a, (a < k)%nat -> conj (ent o (rdiag r) a) = ent o (rdiag r) a) /\
-    (forall a, (S a < k)%nat -> exists x, ent o (roff r) a = nrm x).
+    (forall a, (S a < k)%nat -> exists x, ent o (roff r) a = nrm x) /\
+    (forall a, (S a < k)%nat -> ent o (roff r) a <> 0).
 Proof.
   intros Hn Hmi. set (m := Nat.min max_iters n). assert (Hm : (1 <= m)%nat) by (unfold m; lia).
   unfold lanczos1, lanczos_batch, lfact. fold m. cbn [map].
@@ -375,7 +380,9 @@ Proof.
       + rewrite (EO (b - 1)%nat) by lia. rewrite (EQ (b - 1)%nat) by lia. replace (S (b - 1)) with b by lia. ring. }
   split.
   { intros a Ha. rewrite ED by assumption. replace a with (S a - 1)%nat at 1 2 by lia. apply (I_dreal _ _ _ I). unfold k in *; lia. }
+  split.
   { intros a Ha. rewrite EO by assumption. apply (I_subn _ _ _ I). unfold k in *; lia. }
+  { intros a Ha. rewrite EO by assumption. apply (I_subnz _ _ _ I); unfold k in *; lia. }
 Qed.
 End Run.
 End Proofs.
